@@ -2,6 +2,7 @@ package main
 
 import (
 	"fmt"
+	"strings"
 	"time"
 )
 
@@ -33,7 +34,7 @@ func faultEnum(c *runCtx, kind string, baseOpts map[string]interface{}, baseDept
 	if maxBase > 0 && len(bases) > maxBase {
 		bases = bases[:maxBase] // BFS order: all shorter histories first
 	}
-	opts := map[string]interface{}{"no_b": baseOpts["no_b"], "tasks": baseOpts["import"] == true || baseOpts["remove"] == true || baseOpts["new_addr"] == true}
+	opts := map[string]interface{}{"no_b": baseOpts["no_b"], "tasks": baseOpts["import"] == true || baseOpts["remove"] == true || baseOpts["new_addr"] == true, "batch": baseOpts["batch"]}
 	// dry runs: count commits / calls of every base history
 	dry, to, err := runTasks(c.Bin, c.Scratch, "c06", opts, bases, c.Workers, 150, deadline)
 	if err != nil {
@@ -148,6 +149,23 @@ func init() {
 			}
 			mergeFaultCov(cov, tcov, "task_pass")
 			viols = append(viols, tviols...)
+			// one height per rescan batch: an import takes several batches and every commit between
+			// them is a crash point (the restarted worker has to resume from what is stored)
+			for _, o := range c.Overlays {
+				if strings.HasPrefix(o, "asyncImport:") && !strings.Contains(o, "NOT APPLIED") {
+					mcov, mviols, err := directedCrashPass(c, [][]string{
+						{"x.pc0", "d", "i.m0", "i.s", "i.s", "i.s", "i.s"},
+						{"x.pc0", "d", "x.pc0", "d", "i.m0", "i.s", "i.s", "i.s", "i.s", "i.s"},
+						{"x.pc0", "d", "i.m0", "i.s", "i.s", "x.sc", "d", "i.s", "i.s", "i.s"},
+						{"x.pc0", "d", "i.m1", "i.s", "i.s", "i.s", "x.pc0", "d", "i.s", "i.s"},
+					}, map[string]interface{}{"tasks": true, "batch": 1}, "imports of 4-5 rescan batches (one height per batch), with payments to and a spend of the restored wallet before and between the batches")
+					if err != nil {
+						return nil, nil, nil, err
+					}
+					cov["multi_batch_import_pass"] = mcov
+					viols = append(viols, mviols...)
+				}
+			}
 			// third pass: the process was down while the node mined more than 2000 blocks (the
 			// start-up code has a fast-forward for wallets far behind): directed histories, ended
 			// by an orderly restart through the real start-up path, for four wallet-id orders
@@ -306,13 +324,16 @@ func backendFaultPass(c *runCtx) (map[string]interface{}, []violation, error) {
 // largeTxPass: directed histories whose commits carry thousands of records each; every commit
 // of every history is a crash point.
 func largeTxPass(c *runCtx) (map[string]interface{}, []violation, error) {
-	bases := [][]string{
+	return directedCrashPass(c, [][]string{
 		{"x.pm.1500.1000", "d"},
 		{"x.pm.1500.1000", "d", "x.e", "d", "r.2.R", "d"},
 		{"i.mB"},
 		{"x.pc0", "d", "i.mB", "i.s"},
-	}
-	opts := map[string]interface{}{"tasks": true}
+	}, map[string]interface{}{"tasks": true}, "a block paying the wallet 1500 outputs (also reorganised away and mined again), an import call deriving 2100 addresses, one rescan batch after it")
+}
+
+// directedCrashPass: every commit of every given history is a crash point (dry run counts them).
+func directedCrashPass(c *runCtx, bases [][]string, opts map[string]interface{}, what string) (map[string]interface{}, []violation, error) {
 	deadline := time.Now().Add(10 * time.Minute)
 	dry, _, err := runTasks(c.Bin, c.Scratch, "c06", opts, bases, c.Workers, 20, deadline)
 	if err != nil {
@@ -326,7 +347,7 @@ func largeTxPass(c *runCtx) (map[string]interface{}, []violation, error) {
 			continue
 		}
 		if r.Err != "" {
-			return nil, nil, fmt.Errorf("large-transaction history %v: %s", h, r.Err)
+			return nil, nil, fmt.Errorf("directed history %v: %s", h, r.Err)
 		}
 		if len(r.Viol) > 0 {
 			continue // violates without any crash: reported by the property the history belongs to
@@ -347,7 +368,7 @@ func largeTxPass(c *runCtx) (map[string]interface{}, []violation, error) {
 			continue
 		}
 		if r.Err != "" {
-			return nil, nil, fmt.Errorf("large-transaction task %v: %s", tasks[i], r.Err)
+			return nil, nil, fmt.Errorf("directed task %v: %s", tasks[i], r.Err)
 		}
 		done++
 		inconclusive += r.Info["inconclusive"]
@@ -355,8 +376,7 @@ func largeTxPass(c *runCtx) (map[string]interface{}, []violation, error) {
 			viols = append(viols, violation{Hist: tasks[i], Viol: r.Viol, Known: r.KnownTags, Detail: r.Detail, Opts: opts})
 		}
 	}
-	return map[string]interface{}{"histories": len(bases), "crash_points": points, "runs_completed": done, "inconclusive_runs": inconclusive,
-		"what": "a block paying the wallet 1500 outputs (also reorganised away and mined again), an import call deriving 2100 addresses, one rescan batch after it"}, viols, nil
+	return map[string]interface{}{"histories": len(bases), "crash_points": points, "runs_completed": done, "inconclusive_runs": inconclusive, "what": what}, viols, nil
 }
 
 // longOfflinePass runs the directed "down for 2000+ blocks" histories of C06.
